@@ -8,7 +8,7 @@ repository or a mixture of old and new shards.  A run that reports success has i
 Quantifier: every filesystem mutation point of a build that replaces an existing index with one that has more, fewer
 or the same number of shards, including delta builds that rewrite metadata sidecars; plus failures of individual renames.
 -/
-import ZoektModel.C12.Present
+import ZoektModel.C12.FileWise
 namespace ZoektModel.C12
 
 /-! ## old-or-new at every crash point: true exactly for the single-rename scenarios -/
@@ -117,6 +117,16 @@ theorem C12_never_missing (s : Scn) (hwf : s.WF = true) (hold : 1 ≤ s.nOld ∨
     (dord : List Path) (hd : dord.Perm (toDeleteAfter s ro)) (fails : Nat → Bool) :
     (∀ k, Present (crashDir s ro dord fails k)) ∧ Present (finalDir s ro dord fails) :=
   ⟨crash_present s hwf hold ro hro dord hd fails, final_present s hwf hold ro hro dord hd fails⟩
+
+/-- **C12 (the mixture is a mixture of whole files)**: in every scenario, for every iteration order and at every crash
+    point of a run without failures, every file with a non-temporary name is exactly the file of the previous index or
+    exactly the file of the new index at that name.  Together with `C12_no_truncated` and `C12_never_missing` this is what
+    remains true where `C12_crash_full` fails. -/
+theorem C12_crash_filewise (s : Scn) (hwf : s.WF = true)
+    (ro : List (Path × Path)) (hro : ro.Perm (artifacts s))
+    (dord : List Path) (hd : dord.Perm (toDeleteAfter s ro)) (k : Nat) :
+    FileWise s (crashDir s ro dord (fun _ => false) k) :=
+  crash_filewise s hwf ro hro dord hd k
 
 /-! ## non-vacuity -/
 
